@@ -1,1 +1,4 @@
 // hook file for statime-algo/src/estimator.rs: declares the per-property harness modules
+#[cfg(any(verif_all, verif_c42, verif_c43))]
+#[path = "/verif/harness/statime-algo/c42.rs"]
+pub(crate) mod c42;
